@@ -101,6 +101,26 @@ def main():
             ratios[cls.__name__] = max(ratios.get(cls.__name__, 0.0), r)
             if r > K:
                 fail("global-error-exceeds-K*tol", method=cls.__name__, tol=tol, problem="bernoulli", ratio=r)
+    # components of very different size: the bound is per component (atol + rtol*|y_i|), a large component must not lend its tolerance to the
+    # small ones (u' = -0.05 u from 1e7 together with an O(1) oscillator of frequency 4)
+    for cls in [c for c in adaptive if c.__name__ in ("RK45CKSolver", "DOPRI45", "RK8713MSolver")]:
+        for sgn in (1.0, -1.0):
+            tol = 1e-7
+            f = lambda t, y, sgn=sgn: sgn * np.array([-0.05 * y[0], 4.0 * y[2], -4.0 * y[1]])
+            a = de.OdeSystem(f, y0=np.array([1e7, 1.0, 0.0]), t=(0.0, sgn * 3.0), dt=1e-3, rtol=tol, atol=tol)
+            a.method = cls
+            cases += 1
+            try:
+                a.integrate()
+            except Exception as e:
+                fail("raises", method=cls.__name__, tol=tol, problem="mixed-scale", cause=repr(e.__cause__)[:90])
+                continue
+            t, y = np.asarray(a.t), np.asarray(a.y)
+            s_ = np.abs(t)
+            ex = np.stack([1e7 * np.exp(-0.05 * s_), np.cos(4 * s_), -np.sin(4 * s_)], axis=1)
+            r = float(np.max(np.abs(y - ex) / (tol + tol * np.abs(ex)) / np.maximum(1.0, s_)[:, None]))
+            if r > 5 * K:
+                fail("global-error-exceeds-K*tol-per-component[mixed scales]", method=cls.__name__, tol=tol, direction=sgn, ratio=r)
     # fast decay with an initial step far too large for it (dt >= the span, |lambda| * span = 50 .. 200): the first attempts of the first
     # step are rejected several times; the step that is finally recorded must meet the tolerance like any other (defect F31: the error
     # scale and the controller memory of the rejected attempts were carried into the judgement of the retry)
